@@ -37,6 +37,8 @@ class C10(F.Spec):
         for i in range(n // 4):
             yield self.positioning(rng, 20000 + i, zero=True)
         for i in range(n // 3):
+            yield self.pass_through(rng, i)
+        for i in range(n // 3):
             yield self.uncalibrated(rng, i)
         for i in range(n // 3):
             yield self.autocal(rng, i)
@@ -127,6 +129,27 @@ class C10(F.Spec):
         return F.Case("pos%d" % i, ops, {"kind": "pos", "tt": tt, "opening": opening, "closing": closing, "tms": tms, "margin": margin,
                                          "p0": p0, "t0": t0, "cmds": cmds, "startup": startup, "noshrink": True,
                                          "tags": ["kind:pos", "tilt:%d" % tt, "target:%s" % ("end" if g in (0, 100) else "mid")]})
+
+    def pass_through(self, rng, i):
+        """a roller shutter moving on a plain 'down' / 'up' command is asked for the very position it is passing: it has to stop
+        there (three requests around the estimate, one of them equals the reported value at that moment)"""
+        full = rng.choice([10000, 20000, 30000])
+        p0 = rng.choice([20, 30, 70, 80])
+        down = p0 < 50
+        w = rng.choice([2000, 3000, 4500])
+        est = p0 + (1 if down else -1) * int(round(100.0 * (w - 0) / full))
+        dur = ((full // 100) << 16) | (full // 100)
+        g2 = max(1, min(99, est + rng.choice([-1, 0, 0, 1])))
+        ops = ["boot %d" % rng.choice([12345, rng.getrandbits(32) | 1]), "board rs1 0", "motor 3 0 %d %d" % (full, full), "init", "calllog 1",
+               "rstimes 0 %d %d 0 0" % (full, full), "rspos 0 %d 0" % (100 + 100 * p0), "rsmargin 0 -1", "physpos 0 %d" % p0, "adv 1500",
+               "msg 110 " + set_value(7, 0, dur, [1 if down else 2]).hex()]
+        self.run_until_idle(ops, w)
+        ops.append("msg 110 " + set_value(8, 0, dur, [10 + g2, 0]).hex())
+        self.run_until_idle(ops, int(full * 1.6) + 4000)
+        ops += ["physshow 0"]
+        return F.Case("pass%d" % i, ops, {"kind": "pos", "tt": 0, "opening": full, "closing": full, "tms": 0, "margin": -1, "p0": p0, "t0": 0,
+                                          "cmds": [("move", None), (g2, -1)], "startup": 0, "noshrink": True,
+                                          "tags": ["kind:pos", "tilt:0", "target:passing"]})
 
     def tilt_retarget(self, rng, i):
         """facade blind: a positioning task settles, then tilt-only requests (position 'keep'), the second one while the tilt
